@@ -88,7 +88,17 @@ pub fn run(lts: Arc<Lts>, o: &WalkOpts, pairs: usize) -> Value {
         } else {
             let es = &lts.edges[si];
             let comp: Vec<&Edge> = es.iter().filter(|e| e.to != si || matches!(e.op.op.as_str(), "create_dir_all" | "remove_dir_all" | "copy_file" | "move_file" | "copy_dir" | "move_dir")).collect();
-            let e: &Edge = if !comp.is_empty() && rng.gen_bool(0.8) { comp.choose(&mut rng).unwrap() } else { es.choose(&mut rng).unwrap() };
+            // recursive operations on a NON-EMPTY directory make the longest call sequences (and are a tiny share of the
+            // edges): a third of the picks goes to them when the state has one
+            let has_kids = |p: &Vec<String>| lts.universe.iter().enumerate().any(|(j, q)| q.len() > p.len() && q[..p.len()] == p[..] && s[j][0] != 0);
+            let heavy: Vec<&Edge> = es.iter().filter(|e| matches!(e.op.op.as_str(), "copy_dir" | "move_dir" | "remove_dir_all") && has_kids(&e.op.p)).collect();
+            let e: &Edge = if !heavy.is_empty() && rng.gen_bool(0.35) {
+                heavy.choose(&mut rng).unwrap()
+            } else if !comp.is_empty() && rng.gen_bool(0.8) {
+                comp.choose(&mut rng).unwrap()
+            } else {
+                es.choose(&mut rng).unwrap()
+            };
             (e.op.to_json(), false)
         };
         let mk = || -> ASession {
